@@ -121,7 +121,14 @@ def monotonic_table(check: Check, rule: str = "M1") -> None:
         ts = c.lookup("tsukamoto")
         overrides = ts is not None and ts.cls is not base
         if val is None:
-            raise AnalysisError(f"{c.name}.is_monotonic does not return a constant")
+            # a computed answer (e.g. delegated to a wrapped term): it can be True, so the class must then be able to invert
+            r = Resolver(p, fn)
+            rt = [show(r.term(s.value, m)) for m in r.cfg.stmt_nodes() for s in [m.ast] if isinstance(s, ast.Return) and s.value is not None]
+            check.require(overrides, rule, f"{c.name}/monotonic",
+                          f"{c.name}: is_monotonic() is computed ({rt[:1]}) and tsukamoto() is overridden" if overrides else
+                          f"{c.name}: is_monotonic() is computed ({'; '.join(rt)[:80]}) and can answer True, but {c.name} inherits the tsukamoto() that refuses: "
+                          "a term that declares itself monotonic cannot be inverted", loc(fn))
+            continue
         ok = bool(val) == overrides
         check.require(ok, rule, f"{c.name}/monotonic", f"{c.name}: is_monotonic()={val}, tsukamoto() {'overridden' if overrides else 'refuses (inherited)'}"
                       if ok else f"{c.name}: is_monotonic() returns {val} but tsukamoto() is {'overridden' if overrides else 'not implemented'}: "
